@@ -7,9 +7,18 @@ type ufCall struct {
 	res  []*Term
 }
 
+type poolKey struct {
+	o   *Obj
+	off int
+}
+
 type envState struct {
 	in             *Interp
 	now            *Term // current clock in unix seconds (BV64), non-decreasing
+	nowNs          *Term // nanoseconds of the last reading (zero-extended 30-bit variable)
+	nsTerms        map[int]bool
+	ticks          []*Term
+	clockSecs      map[int]bool // seconds terms that are clock readings (bounded)
 	timers         []*timerModel
 	fs             *vfs
 	extra          map[string]interface{}
@@ -25,6 +34,9 @@ type envState struct {
 	timerFires     int
 	marshalled     map[*Obj]Iface
 	gomaxprocs     *Term
+	pools          map[poolKey][]Value
+	poolRepo       map[*Obj]bool
+	aeads          []*aeadModel
 	numcpu         *Term
 	yamlDocs       map[string]interface{} // resolved path -> Iface document (nil = malformed)
 }
